@@ -5,6 +5,7 @@ from __future__ import annotations
 import faulthandler
 import importlib
 import json
+import os
 import sys
 
 
@@ -17,7 +18,13 @@ def main() -> int:
     res = getattr(mod, func)(job)
     with open(outp, "w") as fh:
         json.dump(res, fh)
-    return 0
+        fh.flush()
+        os.fsync(fh.fileno())
+    sys.stdout.flush()
+    sys.stderr.flush()
+    # Skip interpreter finalisation: checks leave daemon threads parked inside pyarrow /
+    # socket reads, and tearing the runtime down under them can crash the process.
+    os._exit(0)
 
 
 if __name__ == "__main__":
